@@ -10,6 +10,7 @@ All theorems hold for every dimension `d`, every cell (list of faces of any leng
 field, every coupling tensor.
 -/
 import PorepyVerif.C15.Lemmas
+import PorepyVerif.C13.Props
 
 namespace PorepyVerif.C15
 
@@ -160,5 +161,189 @@ example : divCell 2 (iso (3/4)) 3 (List.replicate 3 (matOf [[1/2, 1/4], [-1, 2]]
 example : listOf 2 (faceForce 2 (vecOf [3, 1]) 2 (iso (3/4)) 2) = [-9/2, -3/2] := by decide +kernel
 example : sumL triFaces (fun f => faceForce 2 f.n 2 (matOf [[2, 1/2], [1/2, 3]]) 5 0) = 0 := by decide +kernel
 example : listOf 2 (jumpRhs 2 (vecOf [3, 1]) 2 (iso 1) 2 (iso 2) 2) = [-3, -1] := by decide +kernel
+
+/-! ## Assembled 2-D statements: the hypothesis "sub-cell gradients are exact" is discharged by C13's certificates -/
+namespace Biot2
+open PorepyVerif.C13 PorepyVerif.C13.GridS
+
+variable (G : C13.GridS)
+
+/-- with Dirichlet conditions on all boundary faces `_eliminate_ncasym` never fires -/
+theorem elimAt_false_of_allDir (h : allDir G = true) (v : Nat) : G.elimAt v = false := by
+  unfold GridS.elimAt
+  have hnil : (G.facesOf v).filter G.isNeu = [] := by
+    rw [List.filter_eq_nil_iff]
+    intro f hf
+    have hlt := ((G.mem_facesOf v f).mp hf).1
+    have := (List.all_eq_true.mp h) f (List.mem_range.mpr hlt)
+    simpa using this
+  rw [hnil]; simp
+
+/-- **`biot2d_div_u_exact`.**  For EVERY well-formed 2-D grid all of whose interaction regions are certified
+    nonsingular and whose boundary faces are all Dirichlet, the displacement divergence assembled as biot.py does
+    (sub-cell gradients of the MPSA local solves, weight `V_c / #nodes`, double dot with the cell's coupling tensor)
+    applied to the data of `u = A x + b` equals `V_c (α_c : A)` in every cell — exactness of the sub-cell gradients
+    is a theorem here (`C13.GridS.node_gradient_exact`), not a hypothesis.  Cell-wise varying `α` is allowed. -/
+theorem biot2d_div_u_exact (al : Nat → C13.Mat 2) (A : C13.Mat 2) (b : C13.Vec 2) (Ls : List C11.Mat)
+    (hwf : G.WF) (hcert : G.certs = some Ls) (hdir : allDir G = true) (c : Nat) :
+    divU G al (G.nodeSol Ls (G.affineU A b) (G.affineBc A b)) c = cellVol G c * ddot2 (al c) A := by
+  unfold divU cellVol
+  rw [sumList_const _ _ (G.volShare.getD c 0 * ddot2 (al c) A)]
+  · ring
+  · intro v hv
+    have hv' := List.mem_filter.mp hv
+    have hvn : v < G.numNodes := List.mem_range.mp hv'.1
+    have hc : c ∈ G.cellsOf v := by simpa using hv'.2
+    rw [G.node_gradient_exact A b Ls hwf hcert v hvn (elimAt_false_of_allDir G hdir v) _ (G.loc_lt v c hc)]
+
+/-- the property's wording for a scalar coefficient: `div_u · u = α tr(A) V` -/
+theorem biot2d_div_u_exact_alpha (al : Nat → C13.Mat 2) (a : Rat) (A : C13.Mat 2) (b : C13.Vec 2)
+    (Ls : List C11.Mat) (hwf : G.WF) (hcert : G.certs = some Ls) (hdir : allDir G = true) (c : Nat)
+    (hal : al c = iso2 a) :
+    divU G al (G.nodeSol Ls (G.affineU A b) (G.affineBc A b)) c = a * C13.tr A * cellVol G c := by
+  rw [biot2d_div_u_exact G al A b Ls hwf hcert hdir c, hal]
+  unfold ddot2 iso2 C13.tr
+  rw [sumFin_two]
+  simp
+  ring
+
+theorem pRow_zero (al : Nat → C13.Mat 2) (p : Nat → Rat) (al0 : C13.Mat 2) (p0 : Rat)
+    (hal : ∀ c, al c = al0) (hp : ∀ c, p c = p0) (f : Nat) (hn : G.isNeu f = false) :
+    ∀ x ∈ pRow G al p f, x = 0 := by
+  intro x hx
+  unfold pRow at hx
+  split at hx
+  · rename_i c s heq
+    split at hx
+    · simp at hx; rcases hx with rfl | rfl <;> rfl
+    · rename_i hd
+      simp [GridS.isNeu, GridS.isBoundary, heq, hd] at hn
+  · rename_i c1 s1 c2 s2 heq
+    have e : ∀ j, nAlphaP G al p f c1 j - nAlphaP G al p f c2 j = 0 := by
+      intro j; unfold nAlphaP; rw [hal c1, hal c2, hp c1, hp c2]; ring
+    simp [e] at hx
+    exact hx
+  · simp at hx
+
+theorem dot_zero_right (r g : List Rat) (h : ∀ x ∈ g, x = 0) : C11.dot r g = 0 := by
+  induction r generalizing g with
+  | nil => simp [C11.dot]
+  | cons a r ih =>
+    cases g with
+    | nil => simp [C11.dot]
+    | cons y g =>
+      simp only [C11.dot]
+      rw [h y (List.mem_cons_self ..), ih g (fun x hx => h x (List.mem_cons_of_mem _ hx))]
+      ring
+
+theorem getD_zero_of_all (y : List Rat) (h : ∀ x ∈ y, x = 0) (i : Nat) : y.getD i 0 = 0 := by
+  rw [List.getD_eq_getElem?_getD]
+  cases hi : y[i]? with
+  | none => rfl
+  | some x => exact h x (List.mem_of_getElem? hi)
+
+/-- constant pressure, uniform coupling tensor, no Neumann face: the pressure right-hand side of every local
+    system vanishes, hence so do the induced sub-cell gradients (for ANY matrix in place of the inverse) -/
+theorem pSol_zero (Ls : List C11.Mat) (al : Nat → C13.Mat 2) (p : Nat → Rat) (al0 : C13.Mat 2) (p0 : Rat)
+    (hal : ∀ c, al c = al0) (hp : ∀ c, p c = p0) (hdir : allDir G = true) (v k : Nat) :
+    (pSol G Ls al p v).Gs k = fun _ _ => 0 := by
+  funext i j
+  show unflat (C11.mulVec (Ls.getD v []) (pRhs G al p v)) k i j = 0
+  unfold unflat
+  apply getD_zero_of_all
+  intro x hx
+  unfold C11.mulVec at hx
+  obtain ⟨r, _, rfl⟩ := List.mem_map.mp hx
+  apply dot_zero_right
+  intro y hy
+  unfold pRhs at hy
+  obtain ⟨f, hf, hyf⟩ := List.mem_flatMap.mp hy
+  have hlt := ((G.mem_facesOf v f).mp hf).1
+  have hn : G.isNeu f = false := by
+    have := (List.all_eq_true.mp hdir) f (List.mem_range.mpr hlt)
+    simpa using this
+  exact pRow_zero G al p al0 p0 hal hp f hn y hyf
+
+theorem subTraction_zero (R : Region 2) (Gs : Nat → C13.Mat 2) (hG : ∀ k, Gs k = fun _ _ => 0)
+    (i : Nat) (n : C13.Vec 2) (e : Bool) (a : Fin 2) : subTraction R Gs i n e a = 0 := by
+  unfold subTraction
+  apply mulVec_zero_mat
+  intro x y
+  unfold subStress avgAsym
+  have hc : csym R.lam R.mu (Gs i) x y = 0 := by
+    rw [hG i]; unfold csym C13.tr; rw [sumFin_zero]; split <;> ring
+  have hs : sumTo (fun k => R.vol k * casym R.mu (Gs k) x y) R.m = 0 := by
+    rw [sumTo_congr (g := fun _ => 0) R.m (fun k _ => by rw [hG k]; unfold casym; split <;> ring), sumTo_zero]
+  rw [hc, hs]
+  split <;> simp
+
+/-- **`biot2d_grad_p_const`.**  For every 2-D grid without Neumann faces, a coupling tensor `α` that is the same
+    in all cells and a constant pressure `p`, the assembled scalar gradient (Hooke's law of the pressure-induced
+    local solves plus the first-side pressure force, summed over the sub-faces of the face) gives exactly
+    `-p (n_fᵀ α)` on every face with at least one node. -/
+theorem biot2d_grad_p_const (Ls : List C11.Mat) (al : Nat → C13.Mat 2) (p : Nat → Rat) (al0 : C13.Mat 2) (p0 : Rat)
+    (hal : ∀ c, al c = al0) (hp : ∀ c, p c = p0) (hdir : allDir G = true) (f : Nat) (hne : G.fnodes f ≠ [])
+    (a : Fin 2) :
+    gradP G al p (pSol G Ls al p) f a = -(p0 * (G.fnAt f 0 * al0 0 a + G.fnAt f 1 * al0 1 a)) := by
+  have hN : G.nN f ≠ 0 := by
+    unfold GridS.nN
+    intro h0
+    have : (G.fnodes f).length = 0 := by exact_mod_cast h0
+    exact hne (List.length_eq_zero_iff.mp this)
+  unfold gradP
+  rw [sumList_const _ _ (-(nAlphaP G al p f (G.firstCell f) a))]
+  · unfold nAlphaP GridS.subNormal
+    rw [hal, hp]
+    show G.nN f * _ = _
+    field_simp
+  · intro v _
+    unfold GridS.subTr
+    rw [subTraction_zero _ _ (pSol_zero G Ls al p al0 p0 hal hp hdir v)]
+    ring
+
+/-- scalar coefficient: `-α p n_f`, component by component -/
+theorem biot2d_grad_p_const_iso (Ls : List C11.Mat) (al : Nat → C13.Mat 2) (p : Nat → Rat) (a0 p0 : Rat)
+    (hal : ∀ c, al c = iso2 a0) (hp : ∀ c, p c = p0) (hdir : allDir G = true) (f : Nat) (hne : G.fnodes f ≠ [])
+    (a : Fin 2) :
+    gradP G al p (pSol G Ls al p) f a = -(a0 * p0 * G.fnAt f a) := by
+  rw [biot2d_grad_p_const G Ls al p (iso2 a0) p0 hal hp hdir f hne a]
+  rcases fin2_cases a with rfl | rfl <;> simp [iso2] <;> ring
+
+/-- … and the consistency (stabilisation) term annihilates constant pressures -/
+theorem biot2d_stab_const (Ls : List C11.Mat) (al : Nat → C13.Mat 2) (p : Nat → Rat) (al0 : C13.Mat 2) (p0 : Rat)
+    (hal : ∀ c, al c = al0) (hp : ∀ c, p c = p0) (hdir : allDir G = true) (c : Nat) :
+    stab G al (pSol G Ls al p) c = 0 := by
+  unfold stab divU
+  rw [sumList_const _ _ 0]
+  · ring
+  · intro v _
+    rw [pSol_zero G Ls al p al0 p0 hal hp hdir v]
+    unfold ddot2; ring
+
+/-! non-vacuity: C13's two-square grid with all boundary faces Dirichlet is well-formed, certified, all-Dirichlet;
+    the assembled terms are what the theorems say (cell volume 1, α = diag-dominant tensor, resp. 3/4 I) -/
+def exGrid : C13.GridS :=
+  { nodes := [[0, 0], [1, 0], [2, 0], [0, 1], [1, 1], [2, 1]],
+    faceNodes := [[0, 3], [1, 4], [2, 5], [0, 1], [1, 2], [3, 4], [4, 5]],
+    faceCells := [[(0, -1)], [(0, 1), (1, -1)], [(1, 1)], [(0, -1)], [(1, -1)], [(0, 1)], [(1, 1)]],
+    cellCenters := [[1/2, 1/2], [3/2, 1/2]],
+    faceCenters := [[0, 1/2], [1, 1/2], [2, 1/2], [1/2, 0], [3/2, 0], [1/2, 1], [3/2, 1]],
+    faceNormals := [[1, 0], [1, 0], [1, 0], [0, 1], [0, 1], [0, 1], [0, 1]],
+    volShare := [1/4, 1/4],
+    isDir := [true, false, true, true, true, true, true],
+    eta := 0, lam := 3/2, mu := 3/4 }
+
+def exAl : Nat → C13.Mat 2 := fun c => if c = 0 then matOfLists [[2, 1/2], [1/2, 3]] else iso2 (3/4)
+def exA2 : C13.Mat 2 := matOfLists [[1/2, 1/4], [-1, 2]]
+def exb2 : C13.Vec 2 := vecOfList [1, -1/2]
+
+example : exGrid.WF ∧ allDir exGrid = true ∧ exGrid.certs.isSome = true ∧ cellVol exGrid 0 = 1 ∧
+    exGrid.certs.map (fun Ls => [0, 1].map (divU exGrid exAl (exGrid.nodeSol Ls (exGrid.affineU exA2 exb2) (exGrid.affineBc exA2 exb2))))
+      = some [2 * (1/2) + (1/2) * (1/4) + (1/2) * (-1) + 3 * 2, 3/4 * (5/2)] ∧
+    exGrid.certs.map (fun Ls => vecToList (gradP exGrid (fun _ => iso2 (3/4)) (fun _ => 2) (pSol exGrid Ls (fun _ => iso2 (3/4)) (fun _ => 2)) 1))
+      = some [-(3/2), 0] := by
+  decide +kernel
+
+end Biot2
 
 end PorepyVerif.C15
